@@ -199,7 +199,7 @@ static void rec_out(Endpoint* ep, const void* data, int len)
 {
 	const uint8_t* p = (const uint8_t*)data;
 	ep->outbox.emplace_back(p, p + len);
-	emit("out %d %d %016llx", ep->id, len, (unsigned long long)fnv64(p, len));
+	emit("out %d %d %016llx %u", ep->id, len, (unsigned long long)fnv64(p, len), len > 0 ? (unsigned)p[len - 1] : 0u);
 }
 
 static unsigned bunch_flags(const struct utcp_bunch* b)
@@ -244,6 +244,15 @@ struct HConn : public utcp::conn, public Endpoint
 		}
 		g_out += s;
 		g_out += '\n';
+		if (count > 1 && count <= 256)
+		{
+			std::unique_ptr<utcp::large_bunch> lb(new utcp::large_bunch(bunches, count));
+			size_t nb = ((size_t)lb->ExtDataBitsLen + 7) / 8;
+			std::vector<uint8_t> tmp(lb->ExtData, lb->ExtData + nb);
+			if (lb->ExtDataBitsLen % 8)
+				tmp[nb - 1] &= (uint8_t)((1u << (lb->ExtDataBitsLen % 8)) - 1);
+			emit("joined %d %u %016llx", id, (unsigned)lb->ExtDataBitsLen, (unsigned long long)fnv64(tmp.data(), nb));
+		}
 	}
 	virtual void on_delivery_status(int32_t packet_id, bool ack) override
 	{
@@ -386,7 +395,11 @@ static void deliver_conn(HConn* dst, const Bytes& d, bool wrapper)
 	}
 	else
 	{
+		int32_t before = utcp_expect_packet_id(dst->get_fd());
 		bool r = utcp_incoming(dst->get_fd(), p, (int)d.size());
+		int32_t after = utcp_expect_packet_id(dst->get_fd());
+		if (after != before) // a data packet was accepted: its id, and whether it was acknowledged (history bit 0) or refused (skip-ack)
+			emit("acc %d %d %u", dst->id, (int)(after - 1), (unsigned)(dst->get_fd()->packet_notify.InSeqHistory[0] & 1u));
 		emit("ret %d", r ? 1 : 0);
 	}
 	free(p);
